@@ -405,15 +405,18 @@ def len : V → R UInt16
   | .obj "p.Option" [.num ty, .num ln, _] => .ok (Gen.protocol.Option.Len { Type_ := n8 ty, Length := n8 ln })
   | _ => .panic
 def lenM (v : V) : R (UInt16 × V) := do let l ← len v; same l v
+/-- `data[0] = Type`; Pad1 (type 0) is that single byte; otherwise `data[1] = Length; copy(data[2:], Data)` -/
 def bytes (v : V) : R Bytes :=
   match v with
   | .obj "p.Option" [.num ty, .num ln, .bytes d] => do
     let l ← len v
-    fill l.toNat [pU8 ty, pU8 ln, pCopy d]
+    if n8 ty = 0 then fill l.toNat [pU8 ty] else fill l.toNat [pU8 ty, pU8 ln, pCopy d]
   | _ => .panic
 def marshalM (v : V) : R (Bytes × V) := do let b ← bytes v; same b v
+/-- a first byte 0 is Pad1: one byte, no length, no data -/
 def unmarshal (_recv : V) (data : Slice) : R V :=
-  if data.len < 2 then .err else do
+  if 1 ≤ data.len ∧ data.index 0 = some 0 then pure (.obj "p.Option" [.num 0, .num 0, .bytes []])
+  else if data.len < 2 then .err else do
   let ty ← data.byteAt 0
   let ln ← data.byteAt 1
   if data.len - 2 < ln.toNat then .err else do
